@@ -95,7 +95,7 @@ def run(ctx, pid):
                                        timeout=(1500 if thorough else 500) * scale,
                                        env={'VERIF_TIME_SCALE': str(scale)})
     if rc != 0 or data is None:
-        raise RuntimeError('real-pool driver failed (rc=%s): %s' % (rc, log[-1500:]))
+        sandbox.driver_failed('real-pool', rc, log)
     forms = FORMULAS[pid]
     consts = dict(CONSTS, Slack10=str(int(50 * scale)))
     ctx.note('real_time_slack_s', 5 * scale)
